@@ -43,7 +43,7 @@ package ddsketch
 // Adding: invalid input is refused with the documented error and changes nothing; a trackable value goes to the
 // bin of its index on its side (or to the zero bucket when closer to zero than the smallest indexable value).
 //@ func DDSketch.AddWithCount
-//@   serves C13 C01 C11
+//@   serves C13 C01 C11 C12
 //@   requires KInv(s) && finite(count)
 //@   ensures untouched-neg: !(result == nil && value < xf(0.0 - mapping.MMin(s.IndexMapping))) ==> untouched(s.negativeValueStore)
 //@   ensures untouched-pos: !(result == nil && value > xf(mapping.MMin(s.IndexMapping))) ==> untouched(s.positiveValueStore)
@@ -62,7 +62,7 @@ package ddsketch
 //@   modifies footprint(s)
 
 //@ func DDSketch.Add
-//@   serves C13 C01
+//@   serves C13 C01 C12
 //@   requires KInv(s)
 //@   ensures KInv(s)
 //@   ensures rejected: (isnan(value) || value > xf(mapping.MMax(s.IndexMapping)) || value < xf(0.0 - mapping.MMax(s.IndexMapping))) ==> result != nil && KSame(s)
@@ -104,7 +104,7 @@ package ddsketch
 
 // ---------------------------------------------------------------- copy, clear, merge, reweight
 //@ func DDSketch.Copy
-//@   serves C14 C02
+//@   serves C14 C02 C12
 //@   requires KInv(s)
 //@   ensures result != nil && fresh(result) && KInv(result) && result.IndexMapping == s.IndexMapping && same(result.zeroCount, s.zeroCount)
 //@   ensures content: KPosTot(result) == KPosTot(s) && KNegTot(result) == KNegTot(s) && (forall k int :: KPos(result, k) == KPos(s, k)) && (forall k int :: KNeg(result, k) == KNeg(s, k))
@@ -112,7 +112,7 @@ package ddsketch
 //@   ensures pure: KInv(s) && KSame(s)
 
 //@ func DDSketch.Clear
-//@   serves C15
+//@   serves C15 C12
 //@   requires KInv(s)
 //@   ensures KInv(s) && s.IndexMapping == old(s.IndexMapping) && s.positiveValueStore == old(s.positiveValueStore) && s.negativeValueStore == old(s.negativeValueStore)
 //@   ensures empty: same(s.zeroCount, xf(0.0)) && KPosTot(s) == 0.0 && KNegTot(s) == 0.0 && (forall k int :: KPos(s, k) == 0.0) && (forall k int :: KNeg(s, k) == 0.0)
@@ -122,7 +122,7 @@ package ddsketch
 // MergeWith: refused (nothing changes) when the mappings differ; otherwise zero weights add up, both sides are
 // merged, and the argument is unchanged.
 //@ func DDSketch.MergeWith
-//@   serves C02 C13
+//@   serves C02 C13 C12
 //@   requires KInv(s) && KInv(other) && disjoint(s, other)
 //@   ensures refuse: !mapping.MEq(s.IndexMapping, other.IndexMapping) ==> result != nil && KSame(s) && untouched(s)
 //@   ensures accept: mapping.MEq(s.IndexMapping, other.IndexMapping) ==> result == nil && same(s.zeroCount, old(s.zeroCount) + old(other.zeroCount)) && KPosTot(s) == old(KPosTot(s)) + old(KPosTot(other)) && KNegTot(s) == old(KNegTot(s)) + old(KNegTot(other))
@@ -134,7 +134,7 @@ package ddsketch
 
 // Reweight: refused (nothing changes) for w <= 0; otherwise every weight is multiplied by w.
 //@ func DDSketch.Reweight
-//@   serves C16 C13
+//@   serves C16 C13 C11 C12
 //@   requires KInv(s) && finite(w)
 //@   ensures refuse: w <= 0.0 ==> result != nil && KSame(s)
 //@   ensures ok: w > 0.0 ==> result == nil && same(s.zeroCount, old(s.zeroCount) * w) && KPosTot(s) == real(w) * old(KPosTot(s)) && KNegTot(s) == real(w) * old(KNegTot(s)) && (forall k int :: KPos(s, k) == real(w) * old(KPos(s, k))) && (forall k int :: KNeg(s, k) == real(w) * old(KNeg(s, k)))
@@ -226,7 +226,7 @@ package ddsketch
 // Adding: the statistics change only when the underlying sketch accepted the value with a positive weight;
 // invalid input (also with weight 0) is refused with the documented error and changes nothing.
 //@ func DDSketchWithExactSummaryStatistics.AddWithCount
-//@   serves C10 C13
+//@   serves C10 C13 C12
 //@   requires EInv(s) && finite(count)
 //@   ensures EInv(s) && s.DDSketch == old(s.DDSketch) && s.summaryStatistics == old(s.summaryStatistics)
 //@   ensures neg-count: count < 0.0 ==> result == ErrNegativeCount
@@ -241,7 +241,7 @@ package ddsketch
 //@   modifies footprint(s)
 
 //@ func DDSketchWithExactSummaryStatistics.Add
-//@   serves C10 C13
+//@   serves C10 C13 C12
 //@   requires EInv(s)
 //@   ensures EInv(s) && s.DDSketch == old(s.DDSketch) && s.summaryStatistics == old(s.summaryStatistics)
 //@   ensures rejected: (isnan(value) || value > xf(mapping.MMax(s.DDSketch.IndexMapping)) || value < xf(0.0 - mapping.MMax(s.DDSketch.IndexMapping))) ==> result != nil && ESameStats(s) && KCount(s.DDSketch) == old(KCount(s.DDSketch))
@@ -250,21 +250,21 @@ package ddsketch
 //@   modifies footprint(s)
 
 //@ func DDSketchWithExactSummaryStatistics.Clear
-//@   serves C10 C15
+//@   serves C10 C15 C12
 //@   requires EInv(s)
 //@   ensures EInv(s) && s.DDSketch == old(s.DDSketch) && s.summaryStatistics == old(s.summaryStatistics) && KCount(s.DDSketch) == 0.0 && stat.SSEmptyState(s.summaryStatistics)
 //@   ensures stable: footprintStable(s)
 //@   modifies footprint(s)
 
 //@ func DDSketchWithExactSummaryStatistics.Copy
-//@   serves C10 C14
+//@   serves C10 C14 C12
 //@   requires EInv(s)
 //@   ensures result != nil && fresh(result) && EInv(result) && stat.SSSame(result.summaryStatistics, s.summaryStatistics) && KCount(result.DDSketch) == KCount(s.DDSketch)
 //@   ensures independent: footprintFresh(result)
 //@   ensures pure: EInv(s) && ESameStats(s) && s.DDSketch == old(s.DDSketch) && KSame(s.DDSketch)
 
 //@ func DDSketchWithExactSummaryStatistics.Reweight
-//@   serves C10 C16 C13
+//@   serves C10 C16 C13 C11 C12
 //@   requires EInv(s) && finite(factor)
 //@   ensures EInv(s) && s.DDSketch == old(s.DDSketch) && s.summaryStatistics == old(s.summaryStatistics)
 //@   ensures refuse: factor <= 0.0 ==> result != nil && ESameStats(s) && KSame(s.DDSketch)
@@ -273,7 +273,7 @@ package ddsketch
 //@   modifies footprint(s)
 
 //@ func DDSketchWithExactSummaryStatistics.MergeWith
-//@   serves C10 C02 C13
+//@   serves C10 C02 C13 C12
 //@   requires EInv(s) && EInv(o) && disjoint(s, o)
 //@   ensures EInv(s) && EInv(o) && s.DDSketch == old(s.DDSketch) && s.summaryStatistics == old(s.summaryStatistics)
 //@   ensures refuse: !mapping.MEq(s.DDSketch.IndexMapping, o.DDSketch.IndexMapping) ==> result != nil && ESameStats(s) && KSame(s.DDSketch)
@@ -336,7 +336,7 @@ package ddsketch
 // The plain decoder skips the blocks of the exact summary statistics: exactly their documented payload
 // (flag.go: total count = varfloat64; sum, min, max = float64LE) and nothing else; other flags are unknown.
 //@ func DDSketch.DecodeAndMergeWith
-//@   serves C08 C07 C06
+//@   serves C08 C07 C06 C12
 //@   requires KInvM(s)
 //@   ensures complete: result == nil ==> s.IndexMapping != nil
 //@   ensures KInvM(s) && KCount(s) >= old(KCount(s)) && s.positiveValueStore == old(s.positiveValueStore) && s.negativeValueStore == old(s.negativeValueStore)
